@@ -35,9 +35,10 @@ def sample_of(pname, mode, seed, opts=None):
     return {"seed": seed, "sched": scn.get("sched"), "program": pretty.program(scn["ops"])[:60]}
 
 
-def batch_run(prop, pname, mode, n_runs, tier, verif_seed, opts=None, wall_cap=None, workers=16, stop_on_violation=True):
+def batch_run(prop, pname, mode, n_runs, tier, verif_seed, opts=None, wall_cap=None, workers=16, stop_on_violation=True, accept=()):
     procs.template_init(with_pdks=(pname == "pdk"))
     batch = runner.Batch(prop, pname, tier, verif_seed)
+    batch.accept = set(accept)
     seeds = [hash64(verif_seed, prop, pname, mode, i) % (1 << 48) for i in range(n_runs)]
     idx = [0]
 
@@ -57,6 +58,8 @@ def batch_run(prop, pname, mode, n_runs, tier, verif_seed, opts=None, wall_cap=N
 def minimise_violation(pname, scn, finding, budget_s=20.0):
     """Shrink scn['ops'] while the same finding clause persists."""
     P = profile_mod(pname)
+
+    finding = dict(finding)
 
     def test(ops):
         cand = dict(scn)
